@@ -64,7 +64,7 @@ COMPONENTS = {
     "stub": [],
 }
 TIERS = {
-    "quick": {"histories": 320, "runs": 8, "budget_s": 150, "timeout": 120, "batch": 160, "shrink_s": 40},
+    "quick": {"histories": 320, "runs": 8, "budget_s": 600, "timeout": 240, "batch": 160, "shrink_s": 40},
     "thorough": {"histories": 3000, "runs": 24, "budget_s": 840, "timeout": 300, "batch": 250, "shrink_s": 60},
 }
 
@@ -194,8 +194,7 @@ def monitor(t, V):
             if met and R > 0 and B1 != 0:
                 bump("met_within_tolerance_but_partial_path")
             bump("branch_" + branch)
-            ident = {"branch": branch, "digestion": "ruminant" if rum[pos] else "non_ruminant",
-                     "function": "milk" if typ.startswith("milk_") else "meat"}
+            ident = {"branch": branch, "digestion": "ruminant" if rum[pos] else "non_ruminant"}
 
             def wit():
                 return {"month": m, "position": pos, "animal_type": typ, "herd": herd, "requirement": R,
